@@ -3,6 +3,8 @@ package mqtt
 import (
 	"bytes"
 
+	"github.com/eclipse/paho.mqtt.golang/packets"
+
 	"github.com/emitter-io/emitter/internal/verifrt"
 )
 
@@ -57,4 +59,386 @@ func VerifC16Len(v *verifrt.T) {
 	}
 	v.Observe("size", uint64(size))
 	v.Observe("b0", uint64(enc[0]))
+}
+
+// ---------- helpers ----------
+
+func symBytes(v *verifrt.T, name string) []byte {
+	n := v.Choice(v.Bound("strlen")+1, name+"_len")
+	return v.Bytes(n, name)
+}
+
+func encB(v *verifrt.T, m Message, id string) []byte {
+	var w bytes.Buffer
+	_, err := m.EncodeTo(&w)
+	v.Assert(err == nil, id+".encode-ok")
+	return w.Bytes()
+}
+
+func decB(v *verifrt.T, b []byte, id string) Message {
+	m, err := DecodePacket(bytes.NewReader(b), MaxMessageSize)
+	v.Assert(err == nil, id+".decode-ok")
+	return m
+}
+
+func refW(v *verifrt.T, p packets.ControlPacket, id string) []byte {
+	var w bytes.Buffer
+	err := p.Write(&w)
+	v.Assert(err == nil, id+".ref-encode-ok")
+	return w.Bytes()
+}
+
+func refR(v *verifrt.T, b []byte, id string) packets.ControlPacket {
+	p, err := packets.ReadPacket(bytes.NewReader(b))
+	v.Assert(err == nil, id+".ref-decode-ok")
+	return p
+}
+
+func obsBytes(v *verifrt.T, label string, b []byte) {
+	var h uint64 = uint64(len(b))
+	for _, x := range b {
+		h = h*131 + uint64(x)
+	}
+	v.Observe(label, h)
+}
+
+// ---------- CONNECT ----------
+
+func VerifC16Connect(v *verifrt.T) {
+	c := &Connect{
+		ProtoName:      symBytes(v, "proto"),
+		Version:        v.U8("ver"),
+		UsernameFlag:   v.Bool("uf"),
+		PasswordFlag:   v.Bool("pf"),
+		WillRetainFlag: v.Bool("wr"),
+		WillQOS:        v.U8("wq"),
+		WillFlag:       v.Bool("wf"),
+		CleanSeshFlag:  v.Bool("cs"),
+		KeepAlive:      v.U16("ka"),
+		ClientID:       symBytes(v, "cid"),
+	}
+	v.Assume(c.WillQOS <= 2)
+	if c.WillFlag {
+		c.WillTopic = symBytes(v, "wt")
+		c.WillMessage = symBytes(v, "wm")
+	}
+	if c.UsernameFlag {
+		c.Username = symBytes(v, "un")
+	}
+	if c.PasswordFlag {
+		c.Password = symBytes(v, "pw")
+	}
+	e := encB(v, c, "C16.connect")
+	v.Reach("connect-encoded")
+	obsBytes(v, "enc", e)
+
+	// round trip through the broker's own decoder
+	d := decB(v, e, "C16.connect").(*Connect)
+	v.Assert(bytes.Equal(d.ProtoName, c.ProtoName), "C16.connect.rt.proto")
+	v.Assert(d.Version == c.Version, "C16.connect.rt.version")
+	v.Assert(d.UsernameFlag == c.UsernameFlag, "C16.connect.rt.uflag")
+	v.Assert(d.PasswordFlag == c.PasswordFlag, "C16.connect.rt.pflag")
+	v.Assert(d.WillRetainFlag == c.WillRetainFlag, "C16.connect.rt.wretain")
+	v.Assert(d.WillQOS == c.WillQOS, "C16.connect.rt.willqos")
+	v.Assert(d.WillFlag == c.WillFlag, "C16.connect.rt.wflag")
+	v.Assert(d.CleanSeshFlag == c.CleanSeshFlag, "C16.connect.rt.clean")
+	v.Assert(d.KeepAlive == c.KeepAlive, "C16.connect.rt.keepalive")
+	v.Assert(bytes.Equal(d.ClientID, c.ClientID), "C16.connect.rt.clientid")
+	v.Assert(bytes.Equal(d.WillTopic, c.WillTopic), "C16.connect.rt.willtopic")
+	v.Assert(bytes.Equal(d.WillMessage, c.WillMessage), "C16.connect.rt.willmsg")
+	v.Assert(bytes.Equal(d.Username, c.Username), "C16.connect.rt.username")
+	v.Assert(bytes.Equal(d.Password, c.Password), "C16.connect.rt.password")
+	v.Observe("d.willqos", uint64(d.WillQOS))
+
+	// the independent implementation writes the same bytes ...
+	p := packets.NewControlPacket(packets.Connect).(*packets.ConnectPacket)
+	p.ProtocolName = string(c.ProtoName)
+	p.ProtocolVersion = c.Version
+	p.CleanSession = c.CleanSeshFlag
+	p.WillFlag = c.WillFlag
+	p.WillQos = c.WillQOS
+	p.WillRetain = c.WillRetainFlag
+	p.UsernameFlag = c.UsernameFlag
+	p.PasswordFlag = c.PasswordFlag
+	p.Keepalive = c.KeepAlive
+	p.ClientIdentifier = string(c.ClientID)
+	p.WillTopic = string(c.WillTopic)
+	p.WillMessage = c.WillMessage
+	p.Username = string(c.Username)
+	p.Password = c.Password
+	r := refW(v, p, "C16.connect")
+	v.Assert(bytes.Equal(e, r), "C16.connect.bytes-vs-reference")
+
+	// ... and what it writes is decoded by the broker to the same fields
+	a := decB(v, r, "C16.connect.accept").(*Connect)
+	v.Assert(a.WillQOS == c.WillQOS, "C16.connect.accept.willqos")
+	v.Assert(a.KeepAlive == c.KeepAlive && a.Version == c.Version, "C16.connect.accept.scalars")
+	v.Assert(a.WillFlag == c.WillFlag && a.UsernameFlag == c.UsernameFlag && a.PasswordFlag == c.PasswordFlag &&
+		a.WillRetainFlag == c.WillRetainFlag && a.CleanSeshFlag == c.CleanSeshFlag, "C16.connect.accept.flags")
+	v.Assert(bytes.Equal(a.ProtoName, c.ProtoName) && bytes.Equal(a.ClientID, c.ClientID) && bytes.Equal(a.WillTopic, c.WillTopic) &&
+		bytes.Equal(a.WillMessage, c.WillMessage) && bytes.Equal(a.Username, c.Username) && bytes.Equal(a.Password, c.Password), "C16.connect.accept.strings")
+}
+
+// ---------- PUBLISH ----------
+
+func VerifC16Publish(v *verifrt.T) {
+	m := &Publish{
+		Header:    Header{DUP: v.Bool("dup"), Retain: v.Bool("retain"), QOS: v.U8("qos")},
+		Topic:     symBytes(v, "topic"),
+		Payload:   symBytes(v, "payload"),
+		MessageID: v.U16("mid"),
+	}
+	v.Assume(m.QOS <= 2)
+	if m.QOS == 0 {
+		m.MessageID = 0 // message id is present iff QoS > 0
+	}
+	e := encB(v, m, "C16.publish")
+	v.Reach("publish-encoded")
+	obsBytes(v, "enc", e)
+	d := decB(v, e, "C16.publish").(*Publish)
+	v.Assert(d.DUP == m.DUP && d.Retain == m.Retain && d.QOS == m.QOS, "C16.publish.rt.header")
+	v.Assert(bytes.Equal(d.Topic, m.Topic), "C16.publish.rt.topic")
+	v.Assert(bytes.Equal(d.Payload, m.Payload), "C16.publish.rt.payload")
+	v.Assert(d.MessageID == m.MessageID, "C16.publish.rt.mid")
+
+	p := packets.NewControlPacket(packets.Publish).(*packets.PublishPacket)
+	p.Dup, p.Retain, p.Qos = m.DUP, m.Retain, m.QOS
+	p.TopicName = string(m.Topic)
+	p.MessageID = m.MessageID
+	p.Payload = m.Payload
+	r := refW(v, p, "C16.publish")
+	v.Assert(bytes.Equal(e, r), "C16.publish.bytes-vs-reference")
+	q := refR(v, e, "C16.publish").(*packets.PublishPacket)
+	v.Assert(q.Dup == m.DUP && q.Retain == m.Retain && q.Qos == m.QOS, "C16.publish.emit.header")
+	v.Assert(q.TopicName == string(m.Topic) && bytes.Equal(q.Payload, m.Payload) && q.MessageID == m.MessageID, "C16.publish.emit.fields")
+}
+
+// ---------- packets that carry only a message id ----------
+
+func VerifC16Acks(v *verifrt.T) {
+	mid := v.U16("mid")
+	k := v.Choice(5, "kind")
+	var m Message
+	var p packets.ControlPacket
+	switch k {
+	case 0:
+		m = &Puback{MessageID: mid}
+		x := packets.NewControlPacket(packets.Puback).(*packets.PubackPacket)
+		x.MessageID = mid
+		p = x
+	case 1:
+		m = &Pubrec{MessageID: mid}
+		x := packets.NewControlPacket(packets.Pubrec).(*packets.PubrecPacket)
+		x.MessageID = mid
+		p = x
+	case 2:
+		m = &Pubrel{MessageID: mid, Header: Header{QOS: 1}}
+		x := packets.NewControlPacket(packets.Pubrel).(*packets.PubrelPacket)
+		x.MessageID = mid
+		p = x
+	case 3:
+		m = &Pubcomp{MessageID: mid}
+		x := packets.NewControlPacket(packets.Pubcomp).(*packets.PubcompPacket)
+		x.MessageID = mid
+		p = x
+	case 4:
+		m = &Unsuback{MessageID: mid}
+		x := packets.NewControlPacket(packets.Unsuback).(*packets.UnsubackPacket)
+		x.MessageID = mid
+		p = x
+	}
+	e := encB(v, m, "C16.ack")
+	v.Reach("ack-encoded")
+	obsBytes(v, "enc", e)
+	r := refW(v, p, "C16.ack")
+	v.Assert(bytes.Equal(e, r), "C16.ack.bytes-vs-reference")
+	d := decB(v, r, "C16.ack")
+	v.Assert(d.Type() == m.Type(), "C16.ack.type")
+	var got uint16
+	switch x := d.(type) {
+	case *Puback:
+		got = x.MessageID
+	case *Pubrec:
+		got = x.MessageID
+	case *Pubrel:
+		got = x.MessageID
+		v.Assert(x.Header.QOS == 1 && !x.Header.DUP && !x.Header.Retain, "C16.ack.pubrel-header")
+	case *Pubcomp:
+		got = x.MessageID
+	case *Unsuback:
+		got = x.MessageID
+	}
+	v.Assert(got == mid, "C16.ack.rt.mid")
+	q := refR(v, e, "C16.ack")
+	v.Assert(q.Details().MessageID == mid, "C16.ack.emit.mid")
+}
+
+// ---------- PUBREL with arbitrary header (round trip only) ----------
+
+func VerifC16Pubrel(v *verifrt.T) {
+	m := &Pubrel{MessageID: v.U16("mid"), Header: Header{DUP: v.Bool("dup"), Retain: v.Bool("retain"), QOS: v.U8("qos")}}
+	v.Assume(m.Header.QOS <= 2)
+	e := encB(v, m, "C16.pubrel")
+	v.Reach("pubrel-encoded")
+	d := decB(v, e, "C16.pubrel").(*Pubrel)
+	v.Assert(d.MessageID == m.MessageID, "C16.pubrel.rt.mid")
+	v.Assert(d.Header.DUP == m.Header.DUP && d.Header.Retain == m.Header.Retain && d.Header.QOS == m.Header.QOS, "C16.pubrel.rt.header")
+}
+
+// ---------- CONNACK / empty packets ----------
+
+func VerifC16Small(v *verifrt.T) {
+	k := v.Choice(4, "kind")
+	switch k {
+	case 0:
+		m := &Connack{ReturnCode: v.U8("rc")}
+		e := encB(v, m, "C16.connack")
+		d := decB(v, e, "C16.connack").(*Connack)
+		v.Assert(d.ReturnCode == m.ReturnCode, "C16.connack.rt")
+		p := packets.NewControlPacket(packets.Connack).(*packets.ConnackPacket)
+		p.ReturnCode = m.ReturnCode
+		r := refW(v, p, "C16.connack")
+		v.Assert(bytes.Equal(e, r), "C16.connack.bytes-vs-reference")
+		q := refR(v, e, "C16.connack").(*packets.ConnackPacket)
+		v.Assert(q.ReturnCode == m.ReturnCode && !q.SessionPresent, "C16.connack.emit")
+		obsBytes(v, "enc", e)
+	case 1:
+		e := encB(v, &Pingreq{}, "C16.pingreq")
+		v.Assert(bytes.Equal(e, refW(v, packets.NewControlPacket(packets.Pingreq), "C16.pingreq")), "C16.pingreq.bytes-vs-reference")
+		_, ok := decB(v, e, "C16.pingreq").(*Pingreq)
+		v.Assert(ok, "C16.pingreq.rt")
+	case 2:
+		e := encB(v, &Pingresp{}, "C16.pingresp")
+		v.Assert(bytes.Equal(e, refW(v, packets.NewControlPacket(packets.Pingresp), "C16.pingresp")), "C16.pingresp.bytes-vs-reference")
+		_, ok := decB(v, e, "C16.pingresp").(*Pingresp)
+		v.Assert(ok, "C16.pingresp.rt")
+		_, ok = refR(v, e, "C16.pingresp").(*packets.PingrespPacket)
+		v.Assert(ok, "C16.pingresp.emit")
+	case 3:
+		e := encB(v, &Disconnect{}, "C16.disconnect")
+		v.Assert(bytes.Equal(e, refW(v, packets.NewControlPacket(packets.Disconnect), "C16.disconnect")), "C16.disconnect.bytes-vs-reference")
+		_, ok := decB(v, e, "C16.disconnect").(*Disconnect)
+		v.Assert(ok, "C16.disconnect.rt")
+	}
+	v.Reach("small-done")
+}
+
+// ---------- SUBSCRIBE / UNSUBSCRIBE / SUBACK ----------
+
+func VerifC16Subscribe(v *verifrt.T) {
+	n := v.Choice(v.Bound("tuples")+1, "n")
+	m := &Subscribe{Header: Header{QOS: 1}, MessageID: v.U16("mid")}
+	p := packets.NewControlPacket(packets.Subscribe).(*packets.SubscribePacket)
+	p.MessageID = m.MessageID
+	for i := 0; i < n; i++ {
+		t := TopicQOSTuple{Qos: v.U8("q", i), Topic: symBytes(v, "t"+string(rune('0'+i)))}
+		v.Assume(t.Qos <= 2)
+		m.Subscriptions = append(m.Subscriptions, t)
+		p.Topics = append(p.Topics, string(t.Topic))
+		p.Qoss = append(p.Qoss, t.Qos)
+	}
+	e := encB(v, m, "C16.subscribe")
+	v.Reach("subscribe-encoded")
+	obsBytes(v, "enc", e)
+	r := refW(v, p, "C16.subscribe")
+	v.Assert(bytes.Equal(e, r), "C16.subscribe.bytes-vs-reference")
+	d := decB(v, r, "C16.subscribe.accept").(*Subscribe)
+	v.Assert(d.MessageID == m.MessageID, "C16.subscribe.accept.mid")
+	v.Assert(d.QOS == 1 && !d.DUP && !d.Retain, "C16.subscribe.accept.header")
+	v.Assert(len(d.Subscriptions) == n, "C16.subscribe.accept.count")
+	for i := 0; i < n && i < len(d.Subscriptions); i++ {
+		v.Assert(d.Subscriptions[i].Qos == m.Subscriptions[i].Qos && bytes.Equal(d.Subscriptions[i].Topic, m.Subscriptions[i].Topic), "C16.subscribe.accept.tuple")
+	}
+}
+
+func VerifC16Unsubscribe(v *verifrt.T) {
+	n := v.Choice(v.Bound("tuples")+1, "n")
+	m := &Unsubscribe{Header: Header{QOS: 1}, MessageID: v.U16("mid")}
+	p := packets.NewControlPacket(packets.Unsubscribe).(*packets.UnsubscribePacket)
+	p.MessageID = m.MessageID
+	for i := 0; i < n; i++ {
+		t := TopicQOSTuple{Topic: symBytes(v, "t"+string(rune('0'+i)))}
+		m.Topics = append(m.Topics, t)
+		p.Topics = append(p.Topics, string(t.Topic))
+	}
+	e := encB(v, m, "C16.unsubscribe")
+	v.Reach("unsubscribe-encoded")
+	obsBytes(v, "enc", e)
+	r := refW(v, p, "C16.unsubscribe")
+	v.Assert(bytes.Equal(e, r), "C16.unsubscribe.bytes-vs-reference")
+	d := decB(v, r, "C16.unsubscribe.accept").(*Unsubscribe)
+	v.Assert(d.MessageID == m.MessageID, "C16.unsubscribe.accept.mid")
+	v.Assert(len(d.Topics) == n, "C16.unsubscribe.accept.count")
+	for i := 0; i < n && i < len(d.Topics); i++ {
+		v.Assert(bytes.Equal(d.Topics[i].Topic, m.Topics[i].Topic), "C16.unsubscribe.accept.topic")
+	}
+}
+
+func VerifC16Suback(v *verifrt.T) {
+	n := v.Choice(v.Bound("tuples")+2, "n")
+	m := &Suback{MessageID: v.U16("mid")}
+	for i := 0; i < n; i++ {
+		m.Qos = append(m.Qos, v.U8("q", i))
+	}
+	e := encB(v, m, "C16.suback")
+	v.Reach("suback-encoded")
+	obsBytes(v, "enc", e)
+	p := packets.NewControlPacket(packets.Suback).(*packets.SubackPacket)
+	p.MessageID = m.MessageID
+	p.ReturnCodes = m.Qos
+	r := refW(v, p, "C16.suback")
+	v.Assert(bytes.Equal(e, r), "C16.suback.bytes-vs-reference")
+	d := decB(v, e, "C16.suback").(*Suback)
+	v.Assert(d.MessageID == m.MessageID && bytes.Equal(d.Qos, m.Qos), "C16.suback.rt")
+	q := refR(v, e, "C16.suback").(*packets.SubackPacket)
+	v.Assert(q.MessageID == m.MessageID && bytes.Equal(q.ReturnCodes, m.Qos), "C16.suback.emit")
+}
+
+// ---------- size safety at the encoding boundaries ----------
+
+var c16Lens = []int{0, 1, 125, 126, 127, 128, 129, 16380, 16381, 16382, 16383, 16384, 16385, 65520, 65524, 65525, 65526, 65527, 65528, 65529, 65530, 65531, 65532, 65533, 65534, 65535, 65536, 65537, 70000}
+
+// VerifC16Size: PUBLISH with payload lengths at every remaining-length and
+// buffer boundary: EncodeTo never panics; it either refuses with
+// ErrMessageTooLarge or writes a packet whose declared length is exact and
+// which decodes to the same topic / payload length.
+func VerifC16Size(v *verifrt.T) {
+	n := c16Lens[v.Choice(len(c16Lens), "plen_idx")]
+	m := &Publish{
+		Header:    Header{DUP: v.Bool("dup"), Retain: v.Bool("retain"), QOS: v.U8("qos")},
+		Topic:     symBytes(v, "topic"),
+		Payload:   make([]byte, n),
+		MessageID: v.U16("mid"),
+	}
+	v.Assume(m.QOS <= 2)
+	if n > 0 {
+		m.Payload[0] = v.U8("first")
+		m.Payload[n-1] = v.U8("last")
+	}
+	var w bytes.Buffer
+	var err error
+	panicked := v.Try(func() { _, err = m.EncodeTo(&w) })
+	v.Reach("size-encoded")
+	v.Assert(!panicked, "C16.size.encode-no-panic")
+	body := 2 + len(m.Topic) + n
+	if m.QOS > 0 {
+		body += 2
+	}
+	v.Observe("errnil", uint64(verifrt.B2U(err == nil)))
+	if err != nil {
+		v.Assert(err == ErrMessageTooLarge, "C16.size.error-kind")
+		v.Assert(w.Len() == 0, "C16.size.nothing-written-on-error")
+		v.Assert(body > 65535-5, "C16.size.refused-only-when-too-large")
+		return
+	}
+	e := w.Bytes()
+	ref := refEncodeLength(uint32(body))
+	v.Assert(len(e) == 1+len(ref)+body, "C16.size.total-length")
+	d, derr := DecodePacket(bytes.NewReader(e), MaxMessageSize)
+	v.Assert(derr == nil, "C16.size.decode-ok")
+	p := d.(*Publish)
+	v.Assert(len(p.Payload) == n && bytes.Equal(p.Topic, m.Topic) && p.QOS == m.QOS, "C16.size.rt")
+	if n > 0 {
+		v.Assert(p.Payload[0] == m.Payload[0] && p.Payload[n-1] == m.Payload[n-1], "C16.size.rt.ends")
+	}
 }
